@@ -68,6 +68,21 @@ CLAIMED = {
          "only zipped with lists of equal length, every Err carrying a vector is built from a provably non-empty one (120 sites), the renderers' "
          "panic obligations are discharged, the quoted text is line label-1 of str::lines and the lexer counts lines where lines() splits.",
          "`Some diagnostic is on line L` needs the checker's behaviour and is not decided.", "5/C19"),
+ "C15": ("census of identifier-compared strings against the documented table + lexer charset + call-resolution order + no textual matching on rendered code",
+         "Decides that no undocumented name is special-cased anywhere in check:: or generate:: (52 strings today, each documented), that the internal "
+         "`@` marker cannot be lexed, that every lexer keyword is documented, that user variables are resolved before built-in stubs and that the "
+         "generator never decides by substring matching on printed identifiers.",
+         "Interaction of user names with names the generator imports (math, Optional ..) needs scope reasoning on the output and is not decided.", "5/C15"),
+ "C16": ("construction-site pairing (every use of a support name covered by a preceding import registration on every path) + prepend/dedup structure + name table against CPython builtins",
+         "Decides the pairing clause completely for the generator: each of the 8 support-name uses is dominated by the registration of its import from the "
+         "right module, imports are prepended unfiltered and de-duplicated, and every Python name the type table can emit is a builtin, imported, or "
+         "unreachable (one known finding: Collection -> collection).",
+         "Duplicates with the user's own imports and shadowing are not decided.", "5/C16"),
+ "C17": ("field-mapping tables of the definition arms + order-preservation of list derivations + operator/dunder round-trip tables + printer template model",
+         "Decides that parameters keep name, variadic marker and default presence, that parameter and parent lists reach the output through "
+         "order-preserving steps only, that function names are copied (init -> __init__), that operator definitions map to the right dunder both ways, "
+         "that __init__ is self + class arguments with parent calls first, and that no class member is dropped or ordered by hash.",
+         "That __init__ bodies perform the right assignments for every program is not decided.", "5/C17"),
 }
 NA_REASON_PENDING = "check under construction in this round; see DESIGN.md section 5 for the planned rules"
 
